@@ -1,0 +1,27 @@
+//go:build verif
+
+// Contracts for package flaghelper, checked by /verif/govc (see /verif/DESIGN.md).  Comment-only file.
+
+package flaghelper
+
+// C12: repeated slice flags accumulate - the first occurrence replaces the advertised default, every later one
+// appends to what the earlier ones gave; a text that does not parse changes nothing.
+//@ func flaghelper.(*SignedIntegralSliceFlag).Set(v, s) (err)
+//@   props C12
+//@   safety C16
+//@   requires v != nil && v.s != nil
+//@   modifies C:Slice, flaghelper.SignedIntegralSliceFlag.defaulted, C:Int, rec_signedIntegralSlice
+//@   ensures C12_unparsable_text_changes_nothing: err != nil ==> cell(v.s, "Slice") == old(cell(v.s, "Slice")) && v.defaulted == old(v.defaulted)
+//@   ensures C12_first_occurrence_replaces_the_default: err == nil && old(v.defaulted) ==> !v.defaulted && cell(v.s, "Slice") == rec_signedIntegralSlice_res0[old(rec_signedIntegralSlice_cnt)]
+//@   ensures C12_later_occurrences_accumulate: err == nil && !old(v.defaulted) ==> !v.defaulted
+//@        && len(cell(v.s, "Slice")) == len(old(cell(v.s, "Slice"))) + len(rec_signedIntegralSlice_res0[old(rec_signedIntegralSlice_cnt)])
+
+//@ func flaghelper.(*UnsignedIntegralSliceFlag).Set(v, s) (err)
+//@   props C12
+//@   safety C16
+//@   requires v != nil && v.s != nil
+//@   modifies C:Slice, flaghelper.UnsignedIntegralSliceFlag.defaulted, C:Int, rec_unsignedIntegralSlice
+//@   ensures C12_unparsable_text_changes_nothing: err != nil ==> cell(v.s, "Slice") == old(cell(v.s, "Slice")) && v.defaulted == old(v.defaulted)
+//@   ensures C12_first_occurrence_replaces_the_default: err == nil && old(v.defaulted) ==> !v.defaulted && cell(v.s, "Slice") == rec_unsignedIntegralSlice_res0[old(rec_unsignedIntegralSlice_cnt)]
+//@   ensures C12_later_occurrences_accumulate: err == nil && !old(v.defaulted) ==> !v.defaulted
+//@        && len(cell(v.s, "Slice")) == len(old(cell(v.s, "Slice"))) + len(rec_unsignedIntegralSlice_res0[old(rec_unsignedIntegralSlice_cnt)])
